@@ -22,7 +22,7 @@ M("c05-truncate", "C05", "plot/utils.py", "indx = int(np.floor((x[i] - xmin) / d
 M("c05-assign-not-accumulate", "C05", "plot/utils.py", "out[:, indy, indx] += values[:, i]", "out[:, indy, indx] = values[:, i]", "+= -> =")
 M("c05-drop-upper-test", "C05", "plot/utils.py", "(indx >= 0) and (indx < nx) and (indy >= 0) and (indy < ny)", "(indx >= 0) and (indx <= nx - 1) and (indy >= 0) and (indy < ny + 0 * nx) and (indx != 0 or x[i] >= xmin + 0.5 * dx)", "drops points in the lower half of the first x bin")
 M("c05-swap-xy", "C05", "plot/utils.py", "counts[indy, indx] += 1", "counts[indx % ny, indy % nx] += 1", "counts transposed")
-M("c05-no-padding", "C05", "plot/histogram2d.py", "        xmax = xmax + 0.05 * dx\n    if autoymin:", "        xmax = xmax + 0.0 * dx\n    if autoymin:", "automatic upper x limit not padded: the maximum point falls outside the closed-open range")
+M("c05-no-padding", "C05", "plot/histogram2d.py", "        xmax = max(xmax + 0.05 * dx, np.nextafter(xmax, np.inf))", "        xmax = xmax + 0.0 * dx", "automatic upper x limit not padded: the maximum point falls outside the closed-open range")
 M("c05-mean-transposed", "C05", "plot/histogram2d.py", "binned[ind, ...] /= counts", "binned[ind, ...] /= np.maximum(counts, 1).T if counts.shape[0] == counts.shape[1] else counts", "mean divided by transposed counts")
 M("c05-mask-gt1", "C05", "plot/histogram2d.py", "mask = counts == 0", "mask = counts <= 1", "bins with a single point masked")
 M("c05-layer-op-ignored", "C05", "plot/histogram2d.py", "operations.append(layer.operation)", "operations.append(operation)", "per-layer operation ignored (call-level wins)")
